@@ -5,7 +5,7 @@ the matching reader fail with `underflow`.  Also the generic sequencing lemma `p
 -/
 namespace Kio
 
-theorem ok_bind {ε α β} (a : α) (f : α → Except ε β) : (Except.ok a >>= f) = f a := rfl
+private theorem ok_bind {ε α β} (a : α) (f : α → Except ε β) : (Except.ok a >>= f) = f a := rfl
 
 theorem err_bind {ε α β} (e : ε) (f : α → Except ε β) :
     ((Except.error e : Except ε α) >>= f) = .error e := rfl
